@@ -86,6 +86,7 @@ class Fuzzer:
         self.token_n = 0
         self.fail_next_schedule_db = False
         self.early_job_started = 0
+        self.interleavings = 0
         self.resource_manager = FakeResourceManager(world)
         for p in world.pools.values():
             p.resource_manager = self.resource_manager
@@ -490,6 +491,42 @@ class Fuzzer:
         await self.w.dm.compact_agg_billing_project_users_by_date_table(self.w.dr_app, self.w.db)
         return {}
 
+    async def op_interleaved_background(self):
+        """a driver background pass (compaction, clean-up, canceller sweeps) during which another request is served in
+        between: at the k-th time the pass asks the pool for a connection (i.e. between its listing query and one of its
+        per-row transactions, never inside an open transaction) one worker / client operation runs to completion"""
+        import aiomysql
+
+        if aiomysql.HOOKS.get('delay') is not None:
+            return None
+        back = self.rng.choice(['compact', 'compact', 'compact_by_date', 'cleanup_staging', 'cleanup_cancellable', 'cancel_ready', 'cancel_running', 'cancel_orphaned'])
+        fore = self.rng.choice(['billing_update', 'billing_update', 'job_complete', 'job_complete', 'job_started', 'add_attempt_resources', 'commit', 'cancel_job_group', 'unschedule'])
+        k = self.rng.randint(2, 6)
+        state = {'n': 0, 'ran': None}
+
+        async def delay(site):
+            if site != 'connect' or state['ran'] is not None:
+                return
+            state['n'] += 1
+            if state['n'] == k:
+                state['ran'] = 'started'
+                aiomysql.HOOKS.pop('delay', None)
+                try:
+                    res = await getattr(self, 'op_' + fore)()
+                    state['ran'] = 'ok' if res is not None else 'not-applicable'
+                except Exception as e:  # the interleaved request's own failure is its caller's business
+                    state['ran'] = 'raised:' + type(e).__name__
+        aiomysql.HOOKS['delay'] = delay
+        try:
+            await getattr(self, 'op_' + back)()
+        finally:
+            if aiomysql.HOOKS.get('delay') is delay:
+                aiomysql.HOOKS.pop('delay', None)
+        if state['ran'] in (None, 'not-applicable'):
+            return {'background': back, 'interleaved': None}
+        self.interleavings += 1
+        return {'background': back, 'interleaved': fore, 'at_connect': k, 'inner': state['ran']}
+
     async def op_check_resource_aggregation(self):
         await self.w.dm.check_resource_aggregation(self.w.db)
         return {}
@@ -630,6 +667,7 @@ class Fuzzer:
         'cancel_orphaned': 0.7, 'cancel_fast_failing': 1, 'cleanup_staging': 1, 'cleanup_cancellable': 1, 'compact': 0.7,
         'compact_by_date': 0.7, 'check_resource_aggregation': 0.3,
         'job_started': 5, 'job_complete': 9, 'billing_update': 2, 'unschedule': 1.5, 'add_attempt_resources': 1, 'advance_clock': 3,
+        'interleaved_background': 1.5,
     }
 
     async def step(self):
